@@ -1,21 +1,25 @@
 #!/bin/bash
-# seedintake.sh <nn>   e.g. 20 : collects /tmp/wt-c<nn>/SEEDED/{1,2} into /verif/seeded/C<nn>-k, confirms and evaluates them
+# seedintake.sh <nn> [offset]  e.g. 20 2 : collects /tmp/wt-c<nn>/SEEDED/{1,2} into /verif/seeded/C<nn>-(k+offset), confirms and evaluates them
 export GOFLAGS=-mod=mod GOPROXY=off
-nn=$1; ID=C$nn
+nn=$1; ID=C$nn; OFF=${2:-0}
 for k in 1 2; do
-  S=/tmp/wt-c$nn/SEEDED/$k; D=/verif/seeded/$ID-$k
-  [ -f $S/patch.diff ] || { echo "$ID-$k: no patch"; continue; }
+  S=/tmp/wt-c$nn/SEEDED/$k; N=$ID-$((k+OFF)); D=/verif/seeded/$N
+  [ -f $S/patch.diff ] || { echo "$N: no patch"; continue; }
   mkdir -p $D; cp $S/patch.diff $D/; [ -f $S/README.md ] && cp $S/README.md $D/
   demo=$(ls $S/seeded_demo_test.go $S/*_test.go $S/_demo/*_test.go $S/*_test.go.txt 2>/dev/null | head -1)
   [ -n "$demo" ] && cp "$demo" $D/seeded_demo_test.go
   if [ -f $S/demo_pkg.txt ]; then tr -d ' \n' < $S/demo_pkg.txt > $D/demo_pkg.txt; else echo "MISSING demo_pkg"; fi
-  (cd /repo && git apply --check $D/patch.diff) || { echo "$ID-$k: PATCH DOES NOT APPLY TO /repo HEAD"; continue; }
+  (cd /repo && git apply --check $D/patch.diff) || { echo "$N: PATCH DOES NOT APPLY TO /repo HEAD"; continue; }
   /verif/tools/seedconfirm2.sh $D
-  # existing tests of the touched packages
+  # existing tests of the touched packages (twice if the first run fails: tells a flaky test from a caught change)
   cd /tmp/wt-confirm && git checkout -q -- . && git clean -fdq && git apply $D/patch.diff
   pk=$(grep '^+++ b/' $D/patch.diff | sed 's#+++ b/##' | xargs -n1 dirname | sort -u | sed 's#^#./#' | tr '\n' ' ')
   go test -count=1 -vet=off $pk > /var/tmp/existing.tmp 2>&1; rc=$?
-  echo "$ID-$k: existing tests of [$pk] exit $rc $(grep -c '^ok' /var/tmp/existing.tmp) ok $(grep '^--- FAIL' /var/tmp/existing.tmp | head -3 | tr '\n' ' ')" | tee $D/existing_tests.log
+  echo "$N: existing tests of [$pk] exit $rc $(grep -c '^ok' /var/tmp/existing.tmp) ok $(grep '^--- FAIL' /var/tmp/existing.tmp | head -3 | tr '\n' ' ')" | tee $D/existing_tests.log
+  if [ $rc -ne 0 ]; then
+    go test -count=1 -vet=off $pk > /var/tmp/existing.tmp 2>&1; rc=$?
+    echo "$N: existing tests, second run: exit $rc $(grep '^--- FAIL' /var/tmp/existing.tmp | head -3 | tr '\n' ' ')" | tee -a $D/existing_tests.log
+  fi
   git checkout -q -- . ; git clean -fdq
   cd /verif && tools/seedrun.py $D/patch.diff $ID quick | grep -v "^KNOWN" | tail -3 | cut -c1-400 | tee $D/detection_quick.log
 done
